@@ -135,6 +135,31 @@ def run(chk):
                     all(relation(x, y) != "diff" for a, b in zip(p0, p2) for x, y in zip(a[1], b[1])):
                 v["class"] = "empty-first-line"
             chk.violate(v)
+    # 3. paragraphs written one after another through ONE encoder, handed over in every grouping (slices, structs,
+    #    pointers, slice first / struct first): the same number of paragraphs, with the same fields, reads back
+    multi = [(t, r) for t, r in acc if len(vals_of(r)) >= 2]
+    gc = []
+    pats = [b"", b"2", b"2s", b"s2", b"12", b"21", b"3", b"1s", b"p2", b"2p", b"q", b"qs", b"sq", b"22", b"13", b"31", b"1111", b"9"]
+    for t, r in multi[:chk.n(600, 12000)]:
+        for pat in rng.sample(pats, 4) + [bytes(rng.choice(b"123spq") for _ in range(rng.randrange(1, 5)))]:
+            gc.append(("wgroups", [t, pat]))
+    gi, gm = chk.run_both(gc)
+    chk.compare("encoder-groupings", gc, gi, gm)
+    by_doc = dict(acc)
+    for c, res in zip(gc, gi):
+        p0 = vals_of(by_doc[c[1][0]])
+        parts = res.split(" ", 2)
+        viol = None
+        if len(parts) < 3 or parts[0] != "ok" or not parts[2].startswith("["):
+            viol = "paragraphs written through one encoder do not read back"
+        else:
+            p2 = vals_of(parts[2])
+            if len(p2) != len(p0):
+                viol = "paragraphs written one after another through the encoder read back as a different number of paragraphs (%d written, %d read)" % (len(p0), len(p2))
+            elif any(a[0] != b[0] for a, b in zip(p0, p2)):
+                viol = "field names or their order change when written through the encoder"
+        if viol:
+            chk.violate({"kind": "property", "case": lib.show_case(c), "impl": res[:2000], "explanation": viol})
     chk.assumptions += ["values are sequences of text lines: no line is '.' alone or whitespace-only (deb822 cannot represent them)",
                         "a value whose first logical line is empty while more lines follow is excluded: known finding empty-first-line",
                         "the executed writer/reader model handles Unicode whitespace exactly as Go does (R2u)"]
